@@ -316,3 +316,75 @@ Lemma obs_ok dg s r : Inv0 s -> m_obs dg s r = spec_obs dg (m_live s) r.
 Proof.
   intros H. unfold m_obs, spec_obs, m_len. rewrite (inv_len s H), (get_all_ok s H). reflexivity.
 Qed.
+
+(* ---- comparisons ------------------------------------------------------------------------------------- *)
+Lemma nodupb_NoDup l : nodupb l = true -> NoDup l.
+Proof.
+  induction l as [|x l IH]; simpl; intros H; [constructor|].
+  apply andb_true_iff in H. destruct H as [H1 H2]. constructor; [|apply IH; exact H2].
+  apply negb_true_iff in H1. apply l_mem_false. exact H1.
+Qed.
+
+Lemma subset_b_incl a b : subset_b a b = true <-> incl a b.
+Proof.
+  unfold subset_b. rewrite forallb_forall. split; intros H x Hx; [apply l_mem_In|apply l_mem_In]; apply H; exact Hx.
+Qed.
+
+Lemma forallb_ext2 {A} (f g : A -> bool) l : (forall x, f x = g x) -> forallb f l = forallb g l.
+Proof. intros H. induction l as [|x l IH]; simpl; [reflexivity|]. rewrite H, IH. reflexivity. Qed.
+
+Lemma contains_forallb s l : Inv s -> forallb (m_contains s) l = subset_b l (m_live s).
+Proof. intros [H _]. unfold subset_b. apply forallb_ext2. intros x. apply contains_eq. exact H. Qed.
+
+Lemma eq_self_ok s o : Inv s -> eq_self s o = s_eq (m_live s) o.
+Proof.
+  intros H. pose proof H as [H0 _]. unfold eq_self, s_eq. destruct (o_iset o).
+  - unfold m_len. rewrite (inv_len s H0).
+    destruct (lK_eqb (m_live s) (o_elems o)) eqn:E; [|apply andb_false_r].
+    apply (list_eqb_eq Nat.eqb Nat.eqb_eq) in E. rewrite <- E, Nat.eqb_refl. reflexivity.
+  - rewrite (contains_forallb s _ H). reflexivity.
+Qed.
+
+Lemma m_le_ok s o : Inv s -> m_le s o = subset_b (m_live s) (o_elems o).
+Proof.
+  intros [H _]. unfold m_le, m_len. rewrite (inv_len s H).
+  change (forallb (fun k => opd_mem k o) (m_live s)) with (subset_b (m_live s) (o_elems o)).
+  destruct (length (o_elems o) <? length (m_live s)) eqn:C; [|reflexivity].
+  apply Nat.ltb_lt in C. destruct (subset_b (m_live s) (o_elems o)) eqn:F; [|reflexivity]. exfalso.
+  apply subset_b_incl in F. pose proof (NoDup_incl_length (Inv0_nodup s H) F). lia.
+Qed.
+
+Lemma m_ge_ok s o : Inv s -> NoDup (o_elems o) -> m_ge s o = subset_b (o_elems o) (m_live s).
+Proof.
+  intros H ND. pose proof H as [H0 _]. unfold m_ge, m_len. rewrite (inv_len s H0), (contains_forallb s _ H).
+  destruct (length (m_live s) <? length (o_elems o)) eqn:C; [|reflexivity].
+  apply Nat.ltb_lt in C. destruct (subset_b (o_elems o) (m_live s)) eqn:F; [|reflexivity]. exfalso.
+  apply subset_b_incl in F. pose proof (NoDup_incl_length ND F). lia.
+Qed.
+
+(* for duplicate-free lists: a proper subset is a subset that is shorter *)
+Lemma proper_subset_length a b : NoDup a -> NoDup b -> subset_b a b = true ->
+  (length a <? length b) = negb (subset_b b a).
+Proof.
+  intros Na Nb S. apply subset_b_incl in S.
+  destruct (subset_b b a) eqn:F; simpl.
+  - apply subset_b_incl in F. apply Nat.ltb_ge. apply (NoDup_incl_length Nb F).
+  - apply Nat.ltb_lt. destruct (Nat.lt_ge_cases (length a) (length b)) as [L|L]; [exact L|exfalso].
+    pose proof (NoDup_length_incl Na L S) as I. apply subset_b_incl in I. congruence.
+Qed.
+
+Lemma cmp_ok s k o : Inv s -> valid_op (m_live s) (Cmp k o) = true -> m_cmp s k o = s_cmp k (m_live s) o.
+Proof.
+  intros H V. pose proof H as [H0 _]. pose proof (Inv0_nodup s H0) as ND.
+  destruct k; cbn [m_cmp s_cmp]; cbn [valid_op] in V.
+  - apply eq_self_ok. exact H.
+  - f_equal. apply eq_self_ok. exact H.
+  - apply m_le_ok. exact H.
+  - apply nodupb_NoDup in V. rewrite (m_le_ok s o H). unfold m_len. rewrite (inv_len s H0).
+    destruct (subset_b (m_live s) (o_elems o)) eqn:S; [|rewrite andb_false_r; reflexivity].
+    rewrite andb_true_r. simpl. apply proper_subset_length; assumption.
+  - apply nodupb_NoDup in V. apply m_ge_ok; assumption.
+  - apply nodupb_NoDup in V. rewrite (m_ge_ok s o H V). unfold m_len. rewrite (inv_len s H0).
+    destruct (subset_b (o_elems o) (m_live s)) eqn:S; [|rewrite andb_false_r; reflexivity].
+    rewrite andb_true_r. simpl. apply proper_subset_length; assumption.
+Qed.
